@@ -116,6 +116,15 @@ class C04(PropBase):
                     continue
                 name = rng.choice(["f%d.txn", "sub/g%d.txn", "sub/deep/er/h%d.txn", "z/%d.txn"]) % k
                 files.append({"name": name, "text": common.render_journal(sh, common.gen_layout(rng))})
+            # a subdirectory of the journal directory may be a symbolic link to a directory kept elsewhere
+            tops = sorted(set(f["name"].split("/")[0] for f in files if "/" in f["name"]))
+            if tops and rng.random() < 0.3:
+                top = rng.choice(tops)
+                for f in files:
+                    if f["name"].startswith(top + "/"):
+                        f["name"] = "../elsewhere/" + f["name"]
+                files.append({"name": top, "symlink": "../elsewhere/" + top, "text": ""})
+                klass += "+symlinked-dir"
             out.append({"op": "run", "kind": klass, "cfg": cfg, "txns": txns, "text": text_a, "files": files,
                         "perm": perm, "want": OUTS})
         return out
@@ -142,9 +151,9 @@ class C04(PropBase):
             base["tscfg"] = ts
         a = dict(base, txns=case["txns"])
         t = dict(base, text=case["text"]) if ts is not None else None
-        b = dict(base, files=[{"text": f["text"]} for f in case["files"]]) if ts is not None else None
+        b = dict(base, files=[{"text": f["text"]} for f in case["files"] if "symlink" not in f]) if ts is not None else None
         # a third order of the files (reversed): the model's own file-order freedom is exercised too
-        r = dict(base, files=[{"text": f["text"]} for f in reversed(case["files"])]) if ts is not None else None
+        r = dict(base, files=[{"text": f["text"]} for f in reversed(case["files"]) if "symlink" not in f]) if ts is not None else None
         return {"a": a, "t": t, "b": b, "r": r}
 
     def run_model(self, mcases):
@@ -181,7 +190,7 @@ class C04(PropBase):
             return None
         mv = ma["out"]["txns"]["v"]
         mb = arr["b"]["out"]["txns"]["v"] if arr.get("b") else None
-        distinct = case["kind"] != "duplicates"
+        distinct = not case["kind"].startswith("duplicates")
         if arr.get("t") and arr["t"]["out"]["txns"]["v"] != mv:
             return "model: the one text loads differently from the generator's AST"
         if distinct:
@@ -222,7 +231,7 @@ class C04(PropBase):
         if first.get("r") != "OK":
             return None
         self.remember(case)
-        distinct = case["kind"] != "duplicates"
+        distinct = not case["kind"].startswith("duplicates")
         for o in TEXT_OUTS:
             ref = first["out"][o]
             for ra, rb in runs:
